@@ -26,6 +26,26 @@ def run(tier, replay=None):
             raise vlib.Infra("twin theorem fails on the specification for session %d: %s vs %s" % (s1["id"], json.dumps(pr1)[:300], json.dumps(pr2)[:300]))
         checked += 1
     ck.part("twin theorem on the specification", pairs_checked=checked)
+    # several statements on ONE input line, some of them failing: the statements after a failing one run as if they stood on lines of
+    # their own (real read-eval loop in process, judged by CalcSem through the transcript)
+    from astlib import assign, fn, call, N, I, St, bin_, ife, iff, block, y, fr, lst, ix1, wr
+    defs = [assign("boom", fn(["d", "k"], ife(bin_(">", N("d"), I(0)), call("boom", bin_("-", N("d"), I(1)), N("k")), bin_("/", I(1), N("k"))))),
+            assign("bgen", fn(["n"], block([y(I(1)), y(bin_("/", I(1), N("n")))])))]
+    fails = {"top-level division": assign("xa", bin_("/", I(1), I(0))), "four calls deep": call("boom", I(4), I(0)), "second step of a generator": fr(["i"], [call("bgen", I(0))], wr(St("i "))),
+             "index": assign("xb", ix1(lst([I(1)]), I(5))), "type": assign("xc", bin_("+", St("s"), I(1))), "nil operand": bin_("+", N("nope"), I(1)), "call of a non-function": call("xq", I(1))}
+    ol = []
+    for k, (fname, f) in enumerate(fails.items()):
+        others = list(fails.values())
+        g = others[(k + 3) % len(others)]
+        for items in ([wr(St("A1 ")), f, wr(St("B2 "))], [assign("sa", I(k + 1)), f, wr(call("toa", N("sa"))), g, wr(St("C3 ")), N("sa")], [f, g, f, wr(St("D4 "))]):
+            ol.append({"id": len(ol) + 1, "items": defs + items, "stdin": [], "oneline": len(defs), "meta": {"fails": fname, "statements": len(items)}})
+    for v in sess.judge_via_loop(ol, cmp=("report",), ck=ck, part="several statements on one input line, some failing (real read-eval loop)", oneline=True):
+        ck.cov["evaluations"] += 1
+        ck.cov["traces_validated_against_impl"] += 1
+        if v.status != "accept":
+            ck.violation("several statements on one input line, failing: %s: %s: %s" % (v.session["meta"]["fails"], " ".join(v.texts[len(defs):])[:200], json.dumps(v.info)[:500]),
+                         {"session": v.session, "texts": v.texts, "via": "loop-oneline"})
+    ck.part("several statements on one input line, some failing (real read-eval loop)", sessions=len(ol))
     # the same sessions through the real read-eval loop (built binary, REPL mode, piped input): what a later statement prints
     # must be what CalcSem specifies.  A marker statement after every item splits the transcript.
     import subprocess, concurrent.futures
